@@ -292,6 +292,15 @@ func (g *genState) payload() Payload {
 				if g.offSubgroup != nil {
 					seq = append(seq, g.offSubgroup)
 				}
+			} else if r.Chance(6) && n < 17 {
+				// a valid point in two pieces, sometimes with an empty entry in between
+				v := g.u.ValidGamma(r.Intn(4 + n))
+				cut := []int{40, 48, 1, 95}[r.Intn(4)]
+				seq = append(seq, v[:cut])
+				if r.Chance(50) {
+					seq = append(seq, []byte{})
+				}
+				seq = append(seq, v[cut:])
 			} else {
 				seq = append(seq, g.u.ValidGamma(r.Intn(4+n)))
 			}
